@@ -36,6 +36,7 @@ import (
 type c31Arrival struct {
 	gap      time.Duration // virtual gap before this packet
 	producer int
+	size     int // body size in bytes (0 = the default short payload of c31Payload)
 }
 
 type c31Scenario struct {
@@ -74,6 +75,8 @@ func c31Scenarios(thorough bool) []c31Scenario {
 		{heavy: true, name: "burst filling both buffers", arrivals: burst(2*bufferLen + 5)},
 		{name: "lone packet, upstream failures", arrivals: g(0), failures: true},
 		{heavy: true, name: "three packets, upstream failures", arrivals: g(0, 0, 300*ms), failures: true},
+		// body sizes up to the frame limit (the largest body a receiver can hand over is exactly pktBodyMax)
+		{name: "body sizes at the frame limit", arrivals: []c31Arrival{{size: 5}, {size: pktBodyMax - 1}, {size: pktBodyMax}, {size: pktBodyMax - 1}, {size: 7}}},
 		// one batch, two write failures inside it (the resend cursor after the second failure)
 		{name: "batch of five, upstream failures", arrivals: burst(5), failures: true},
 	}
@@ -89,7 +92,7 @@ func c31Scenarios(thorough bool) []c31Scenario {
 		c31Scenario{name: "three upstream addresses, the first one dead: sparse 3 x 300ms", addrs: 3, dead: []string{"up1"}, arrivals: g(0, 300*ms, 300*ms)},
 		c31Scenario{name: "four upstream addresses, first of each pool dead: two packets", addrs: 4, dead: []string{"up1", "up3"}, arrivals: g(0, 0)},
 	)
-	two := c31Scenario{name: "two producers", producers: 2, arrivals: []c31Arrival{{0, 0}, {0, 1}, {300 * ms, 0}, {0, 1}}}
+	two := c31Scenario{name: "two producers", producers: 2, arrivals: []c31Arrival{{gap: 0, producer: 0}, {gap: 0, producer: 1}, {gap: 300 * ms, producer: 0}, {gap: 0, producer: 1}}}
 	out = append(out, two)
 	if thorough {
 		out = append(out,
@@ -159,6 +162,18 @@ func (c *c31Conn) RemoteAddr() net.Addr               { return nil }
 func (c *c31Conn) SetDeadline(t time.Time) error      { return nil }
 func (c *c31Conn) SetReadDeadline(t time.Time) error  { return nil }
 func (c *c31Conn) SetWriteDeadline(t time.Time) error { return nil }
+
+// c31PayloadOf: the body of arrival id of a scenario (an explicit size pads the default payload).
+func c31PayloadOf(sc c31Scenario, id int) []byte {
+	p := c31Payload(id)
+	if n := sc.arrivals[id].size; n > 0 {
+		p = append([]byte(fmt.Sprintf("P%03d:", id)), make([]byte, n)...)[:n]
+		for i := 5; i < n; i++ {
+			p[i] = byte('A' + (id+i)%26)
+		}
+	}
+	return p
+}
 
 func c31Payload(id int) []byte {
 	p := []byte(fmt.Sprintf("P%03d:", id))
@@ -247,7 +262,7 @@ func c31RunScenario(x *mc.Exec, sc c31Scenario, rep *mc.Report) mc.Verdict {
 					} else {
 						vsched.Point("arrival")
 					}
-					payload := c31Payload(id)
+					payload := c31PayloadOf(sc, id)
 					acct.Lock()
 					d0 := e.stats.droppedPackets.Load()
 					f0 := e.stats.forwardedPackets.Load()
@@ -331,7 +346,7 @@ func c31Check(up *c31Upstream, sc c31Scenario, accepted []c31Accepted, refused [
 	}
 	payloadID := map[string]int{}
 	for id := range sc.arrivals {
-		payloadID[string(c31Payload(id))] = id
+		payloadID[string(c31PayloadOf(sc, id))] = id
 	}
 	for ci, c := range up.conns {
 		if len(c.writes) == 0 {
